@@ -271,9 +271,28 @@ func caseMaster(ver, seed []byte) {
 	emit("MASTER", hx(ver)+","+hx(seed), impl, ref, "", p.t)
 }
 
+// warm lists operations performed on the SAME key object before the observed Child call:
+// Child must be a function of (parent fields, index) only, whatever the object did before
+// (other children of either kind, Neuter, String, ...).
+var warm []uint32
+
+func used(k *hdkeychain.ExtendedKey) *hdkeychain.ExtendedKey {
+	for _, w := range warm {
+		switch w {
+		case 0xfffffffe:
+			k.Neuter()
+		case 0xfffffffd:
+			_ = k.String()
+		default:
+			k.Child(w)
+		}
+	}
+	return k
+}
+
 func caseChild(f fields, i uint32) {
 	p := &prims{newTable()}
-	impl := guard(func() string { return res(mk(f).Child(i)) })
+	impl := guard(func() string { return res(used(mk(f)).Child(i)) })
 	var ref string
 	if x, e := p.refOfFields(f); e != "" {
 		ref = "err " + e
@@ -699,6 +718,24 @@ func main() {
 			continue
 		}
 		caseChild(kf, genIndex(r))
+		// the same derivation on a key object that has already been used
+		warm = nil
+		for j, nw := 0, 1+r.Intn(3); j < nw; j++ {
+			switch r.Intn(6) {
+			case 0:
+				warm = append(warm, 0xfffffffe)
+			case 1:
+				warm = append(warm, 0xfffffffd)
+			case 2, 3:
+				warm = append(warm, uint32(r.Intn(50)))
+			default:
+				warm = append(warm, 0x80000000+uint32(r.Intn(50)))
+			}
+		}
+		caseChild(kf, genIndex(r))
+		caseChild(kf, 0x80000000+uint32(r.Intn(100)))
+		caseChild(kf, uint32(r.Intn(100)))
+		warm = nil
 	}
 	for _, idx := range idxBoundaries {
 		for j := 0; j < 2; j++ {
